@@ -32,6 +32,7 @@ def run(tier):
         for p in _drv.PRECS:
             expand.run(chk, 'C07.D3', prog, p, cfgname)
             expand.moved_block_extent_rule(chk, 'C07.D3', prog, p, cfgname)
+            expand.growth_progress_rule(chk, 'C07.D3', prog, p, cfgname)
         expand.bcopy_rule(chk, 'C07.D3', prog, cfgname)
         expand.copy_helper_rule(chk, 'C07.D3', prog, cfgname)
         misc.glu_mirror_rule(chk, 'C07.mirror', prog, cfgname, floor=500)
